@@ -68,3 +68,13 @@ Check (C08_histories_with_cursor_total : forall ops v it, dinv v -> is_response 
   ok_along_tol ops (v, it) ->
   exists s', run_hops3_tol ops (v, it) = (s', Ok tt) /\ dinv (fst s') /\ snd s' = it /\ is_response (pp_packet (fst s'))).
 Print Assumptions C08_histories_with_cursor_total.
+Check (C08_histories_from_parse_with_cursor : forall p v it o ops s1 s', bytes_ok p -> parse p = Ok v -> is_response p -> it_section it <> SQuestion ->
+  (o = H2Recompute \/ exists sec rx, o = H2Insert sec rx) -> hop2_ok o ->
+  run_hop2 o (v, it) = (s1, Ok tt) -> ok_along ops s1 -> run_hops3 ops s1 = (s', Ok tt) ->
+  dinv (fst s') /\ snd s' = it /\ is_response (pp_packet (fst s'))).
+Print Assumptions C08_histories_from_parse_with_cursor.
+Check (C08_histories_from_parse_with_cursor_total : forall p v it o ops s1, bytes_ok p -> parse p = Ok v -> is_response p -> it_section it <> SQuestion ->
+  (o = H2Recompute \/ exists sec rx, o = H2Insert sec rx) -> hop2_ok o ->
+  run_hop2 o (v, it) = (s1, Ok tt) -> ok_along_tol ops s1 ->
+  exists s', run_hops3_tol ops s1 = (s', Ok tt) /\ dinv (fst s') /\ snd s' = it /\ is_response (pp_packet (fst s'))).
+Print Assumptions C08_histories_from_parse_with_cursor_total.
